@@ -92,11 +92,14 @@ Fixpoint no_overlap (F0 : Z) (rs : list record) : Prop :=
   end.
 
 (* FULL STATEMENT of block independence (kept visible whether or not it is proved in full):
-   from any retained stream st0 at (re)configuration, for any two ways of cutting the same samples into gap-free
-   blocks, both runs complete and publish the same sequence of (frame, pre-trigger length, samples). *)
+   from any retained stream st0 at (re)configuration, for any two ways of cutting the same samples into one or
+   more gap-free blocks (blocks may be empty), both runs complete and publish the same sequence of
+   (frame, pre-trigger length, samples).  (A delivery of no block at all never looks at the retained stream, so it
+   is not comparable with a delivery of one empty block: both lists are required to be non-empty.) *)
 Definition block_independent_statement : Prop :=
   forall (kink : list Z -> Z) (c : cfg) (st0 : stream) (segsA segsB : list segment),
     cfg_ok c -> kink_ok kink -> 0 <= st_first st0 ->
+    segsA <> [] -> segsB <> [] ->
     contiguous (st_endframe st0) segsA -> contiguous (st_endframe st0) segsB ->
     seg_concat segsA = seg_concat segsB ->
     exists ra rb,
